@@ -288,6 +288,7 @@ def c09(A, ctx, tier):
     cox.r_cox(A, ctx, {}, rule_prefix="R-COX", parts=("hess",))
     misc.r_powerstart(A, ctx, {})
     cox.r_hessian_bound_sqrt(A, ctx, {})
+    cox.r_cox_global(A, ctx, {})
     kernels.r_csc_helpers(A, ctx, dict(floor=16))
     kernels.r_accessor_eq(A, ctx, dict(floor=12), rule="R-LIPSCHITZ-EQ", select=lambda m: "lipschitz" in m)
     ctx.assume("accuracy of the power method in spectral_norm is numerical and not decided; "
